@@ -6,6 +6,8 @@ package main
 import (
 	"fmt"
 	"regexp"
+
+	"golang.org/x/tools/go/ssa"
 	"sort"
 	"strconv"
 	"strings"
@@ -163,8 +165,34 @@ func ruleE5(p *Program, c *Check, min int) {
 	c.Rule(rule, "the value graph (results, guarded effects, loop-carried values, loop conditions and exits, function literals) of every anchored function equals, "+
 		"over the reals and under every truth assignment of its atomic comparisons, the value graph of the reference implementation written from the property statement", min)
 	pairs, missing := p.specPairs()
+	// An anchored function is compared modulo the identity of the paired helpers it calls, so those helpers are
+	// obligations of the same property: the anchor set is closed under static calls and function references.
+	anchored := map[string]bool{}
+	byCode := map[*ssa.Function]string{}
 	for _, sp := range pairs {
-		if !anchoredIn(c.Property, sp.Key) {
+		byCode[sp.Code] = sp.Key
+		if anchoredIn(c.Property, sp.Key) {
+			anchored[sp.Key] = true
+		}
+	}
+	direct := len(anchored)
+	for changed := true; changed; {
+		changed = false
+		for _, sp := range pairs {
+			if !anchored[sp.Key] {
+				continue
+			}
+			for _, g := range staticRefs(sp.Code) {
+				if k, ok := byCode[g]; ok && !anchored[k] {
+					anchored[k] = true
+					changed = true
+				}
+			}
+		}
+	}
+	c.Extra["anchors"] = map[string]int{"matched_by_pattern": direct, "added_as_static_callees": len(anchored) - direct}
+	for _, sp := range pairs {
+		if !anchored[sp.Key] {
 			continue
 		}
 		res := compareSummaries(p, Summarize(p, sp.Code), Summarize(p, sp.Spec))
@@ -234,3 +262,39 @@ var posInLabel = regexp.MustCompile(`\([^)]*\)`)
 
 // stripPos removes variable names and file:line parts from a label so that keys stay independent of positions and local names.
 func stripPos(s string) string { return posInLabel.ReplaceAllString(s, "") }
+
+// staticRefs: repository functions a function calls statically or refers to as a value (incl. through its function literals).
+func staticRefs(f *ssa.Function) []*ssa.Function {
+	var out []*ssa.Function
+	seen := map[*ssa.Function]bool{}
+	var visit func(fn *ssa.Function)
+	visit = func(fn *ssa.Function) {
+		for _, b := range fn.Blocks {
+			for _, in := range b.Instrs {
+				for _, op := range in.Operands(nil) {
+					if op == nil || *op == nil {
+						continue
+					}
+					g, ok := (*op).(*ssa.Function)
+					if !ok || seen[g] {
+						continue
+					}
+					seen[g] = true
+					if g.Parent() != nil {
+						visit(g) // function literal: part of the enclosing function
+						continue
+					}
+					out = append(out, g)
+				}
+			}
+		}
+		for _, anon := range fn.AnonFuncs {
+			if !seen[anon] {
+				seen[anon] = true
+				visit(anon)
+			}
+		}
+	}
+	visit(f)
+	return out
+}
